@@ -187,16 +187,8 @@ theorem parseTerse_shape (s : Str) (sch : Schema) (h : parseTerse s = .ok sch) :
                       · simp [pure, Except.pure] at heq
   · cases h
 
-theorem validate_parseTerse_total (s : Str) (sch : Schema) (h : parseTerse s = .ok sch) :
-    ∃ b, validate sch = .ok b := by
-  obtain ⟨d, m, fs, rfl, _, hf⟩ := parseTerse_shape s sch h
-  cases hv : validate ⟨some d, some m, some fs⟩ with
-  | ok b => exact ⟨b, rfl⟩
-  | error e =>
-    obtain ⟨_, fs', hfs, f, hfm, hn⟩ := validate_error _ e hv
-    cases hfs
-    have := (hf f hfm).1
-    simp [hn] at this
+theorem validate_parseTerse_total (s : Str) (sch : Schema) (_h : parseTerse s = .ok sch) :
+    ∃ b, validate sch = .ok b := validate_total sch
 
 /-! ## what the notation denotes: parser ∘ printer -/
 
